@@ -33,6 +33,12 @@ def run(ck, ctx):
                      "and CRC validation (shared with C10 R10.1)")
     ck.rule("R14.7", "what the writer can write the reader can read back: the WAL entry decoder rejects a frame only for truncation or checksum "
                      "mismatch, never for a size or shape limit the encoder/appender does not enforce (shared with C10 R10.6)")
+    ck.rule("R14.8", "no field is left out of an encoding: for every struct of the replicated / persisted data model with a derived serde impl, "
+                     "the generated `serialize` writes as many fields as the struct declares and the generated `visit_seq` reads as many "
+                     "(`#[serde(skip)]` on a field of a CRDT - e.g. the OR-Set's tag counter - makes the decoded value behave differently "
+                     "from the encoded one although it compares equal)")
+    ck.rule("R14.9", "an encoder encodes what it was given: the checkpoint writer (and the manager in front of it) passes the state map it "
+                     "received into the encoded CheckpointData unchanged - no retain/filter/remove on the way - and key_count is its length")
     ck.nd("round-trip equality for all values (derive-generated serde and bincode/serde_json are trusted); detection probability of CRC32")
     for cfg in ctx.configs:
         prog = ctx.prog(cfg)
@@ -44,6 +50,8 @@ def run(ck, ctx):
         _wal_layout(ck, prog, cfg)
         _r144(ck, prog, cfg)
         _r145(ck, prog, cfg)
+        _r148(ck, prog, cfg)
+        _r149(ck, prog, cfg)
         from . import c10
         c10._r101(_Alias(ck, "R10.1", "R14.6"), prog, cfg)
 
@@ -454,3 +462,71 @@ def _r145(ck, prog, cfg):
         ck.check(("Vec<u8>" in full or "deserialize_bytes" in names or "deserialize_byte_buf" in names) and not bad and "std::string::String as serde" not in full,
                  "R14.5", "sds:deserialize-raw-bytes" + _tag(cfg),
                  "SDS::deserialize does not read raw bytes in every deserializer (calls %s)" % names, f.where(), detail="Vec<u8>::deserialize")
+
+
+MODEL_FILES = ("src/replication/lattice.rs", "src/replication/state/", "src/streaming/manifest.rs", "src/streaming/checkpoint.rs",
+               "src/streaming/segment.rs", "src/streaming/wal.rs", "src/replication/gossip.rs", "src/replication/anti_entropy.rs", "src/redis/data/sds.rs")
+
+
+def _r148(ck, prog, cfg):
+    n = 0
+    for f in prog.fns.values():
+        if f.crate != "lib" or not f.file.startswith(MODEL_FILES):
+            continue
+        m = re.search(r"<impl .*_serde::Serialize for ([\w:]+)(<.*>)?>::serialize$", f.id)
+        if m:
+            adt = prog.adts.get(m.group(1))
+            if not adt or adt.get("kind") != "struct":
+                continue
+            fields = adt["variants"][0]["fields"]
+            calls = [callee(t) for _, t in f.calls()]
+            wrote = sum(1 for c in calls if re.search(r"Serialize(Struct|TupleStruct)::serialize_field$", c))
+            if any(re.search(r"Serializer::serialize_newtype_struct$", c) for c in calls):
+                wrote = 1
+            if any(re.search(r"Serializer::serialize_unit_struct$", c) for c in calls):
+                wrote = 0
+            n += 1
+            short = m.group(1).rsplit("::", 1)[-1]
+            ck.check(wrote == len(fields), "R14.8", "%s:serialize-covers-all-fields%s" % (short, _tag(cfg)),
+                     "the derived Serialize of %s writes %d of its %d fields (%s): a field is excluded from every encoding, so a decoded value "
+                     "is not the value that was encoded" % (short, wrote, len(fields), [x["n"] for x in fields]), f.where(),
+                     detail="%d/%d fields" % (wrote, len(fields)))
+            continue
+        m = re.search(r"<impl .*_serde::Deserialize<'de> for ([\w:]+)(<.*>)?>::deserialize::__Visitor(<.*>)? as .*Visitor<'de>>::visit_seq$", f.id)
+        if m:
+            adt = prog.adts.get(m.group(1))
+            if not adt or adt.get("kind") != "struct":
+                continue
+            fields = adt["variants"][0]["fields"]
+            read = sum(1 for _, t in f.calls() if re.search(r"SeqAccess::next_element(::<.*>)?$", t.get("fn") or callee(t)))
+            n += 1
+            short = m.group(1).rsplit("::", 1)[-1]
+            ck.check(read == len(fields), "R14.8", "%s:deserialize-reads-all-fields%s" % (short, _tag(cfg)),
+                     "the derived Deserialize of %s reads %d of its %d fields from a sequence encoding (bincode): a field is filled with a "
+                     "default instead of the encoded value" % (short, read, len(fields)), f.where(), detail="%d/%d fields" % (read, len(fields)))
+    ck.floor("R14.8" + _tag(cfg), n, 20)
+
+
+def _r149(ck, prog, cfg):
+    n = 0
+    for f in prog.lib_fns():
+        if f.file != "src/streaming/checkpoint.rs" or "{closure" in f.id and f.kind != "coroutine":
+            continue
+        params = [i for i in range(1, 1 + f.d["argc"]) if isinstance(f.locals[i], str) and
+                  re.match(r"std::collections::HashMap<std::string::String, replication::state::replicated_value::ReplicatedValue", f.locals[i])]
+        upvar_state = f.kind == "coroutine" and any(nm["n"] == "state" for nm in f.names)
+        if not params and not upvar_state:
+            continue
+        n += 1
+        short = re.sub(r"::\{closure#\d+\}", "", f.id).replace("streaming::checkpoint::", "")
+        narrow = []
+        for g in prog.with_children(f):
+            for b, t in g.calls():
+                if is_callee(t, r"HashMap::<std::string::String, .*ReplicatedValue.*>::(retain|remove|drain|clear|extract_if)(::<.*>)?$",
+                             r"Iterator>?::(filter|filter_map|take|skip|take_while|skip_while)(::<.*>)?$"):
+                    narrow.append((g, t))
+        ck.check(not narrow, "R14.9", "%s:state-passed-whole%s" % (short, _tag(cfg)),
+                 "%s narrows the state it was asked to encode (%s): keys are silently left out of the checkpoint, which validates and decodes "
+                 "fine - the round trip through the checkpoint encoding loses them" % (short, callee(narrow[0][1]).rsplit("::", 1)[-1] if narrow else ""),
+                 (narrow[0][0] if narrow else f).where(narrow[0][1]["ln"] if narrow else None), detail="no retain/filter/remove on the state map")
+    ck.floor("R14.9" + _tag(cfg), n, 2)
